@@ -265,3 +265,14 @@ C03_WELL = ['A + B', 'S + T', 'P and Q', 'not P', '-A', 'A < B', 'S contains T',
 C03_SOUND_EXTRA = ['A in M', 'M[A]', 'Xs[S]', 'Fn(A + 1.5)', 'Fn(-F)', 'Fn(1 + 1.5)', 'Fn(2 / 1)', 'FnU8(A + 1)', 'FnF(A + 1)', 'FnF(1 + A)', 'FnI64(A * 2)', 'Fn(1.5 + 2)', 'Fn(I64 + 1)', 'S in Xs', 'P in Xs', 'A in Ss', 'S[S]', 'Ptr["V"]', 'Ptr[S]', 'M.a + S',
                    'U8 in Xs', 'F in Xs', 'I64 == A', 'Xs[U8]', 'Xs[I64]', 'Xs[F]', 'M[S] + A', 'Xss[0][A]', 'Ss[A] + S', 'filter(Xs, {# > A})', 'map(Xs, {# * 2})', 'map(Xs, {# > A})', 'filter(Ss, {# == S})', 'map(Ss, {len(#)})',
                    'count(Xs, {# > A}) + 1', 'A..B', '1..3', '[A, B]', '{a: A}', 'P ? A : F', 'P ? A : nil', 'P ? nil : A', 'Ptr?.V', 'Ptr?.Next', 'A ** B', 'A / B', 'U8 + A', 'U8 * U8', 'F + A', 'I64 % A', '-U8', 'len(S) + A']
+
+
+# C13: (template, mode). '~' = one symbolic whitespace byte, @[ ]@ = the token where the error must be reported
+C13_TEMPLATES = [
+    ('A~+~@[Foo]@~* 2', 0), ('A~@[+]@~S', 0), ('A + B~@[)]@', 0), ("'é' == S and~@[Zip]@(A)", 0), ('Ptr.V +~Ptr.@[Zap]@', 0), ('[A,~@[S]@ ? 1 : 2]', 0),
+    ('Fn(~@[S]@~)', 0), ('all(Xs,~@[{]@# + 1})', 0), ('@[len]@(~A~)', 0), ('Xs[~A~:~@[S]@~]', 0), ('"é" + S +~@[Foo]@', 0), ('{a: 1,~b: @[Foo]@}', 0),
+    ('P ?~A :~@[-]@S', 0), ('A~@[not in]@~B', 0), ('1 +~2~@[3]@', 0), ('Ptr.V.@[W]@', 0), ('"éé"~+ "é" ==~@[Foo]@', 0), ('A~*~(B~@[-]@~S)', 0),
+    ('map(Xs,~{#~@[+]@~S})', 0), ('Gn(A,~@[S]@)', 0), ('not~(P~@[and]@~A)', 0), ('A > 1 ? "é" :~@[Bar]@', 0), ('@[Twice]@()', 0), ('S~@[matches]@~A', 0),
+    ('A~@[/]@~B', 1), ('A + (A~@[%]@~B)', 1), ('Xs@[[]@~A]', 1), ('Ptr.@[V]@', 1), ("'é' + S == T or~@[Fn]@(B) > 0", 1), ('[1, 2, 3]~@[[]@~A~]', 1),
+    ('map(Xs,~{#~@[/]@~B})', 1), ('P ? 1 : A~@[/]@~B', 1), ('S~@[matches]@~T', 1), ('"éé" == S or~A~@[/]@~B > 1', 1), ('Q and~Xs[0] >~Ys@[[]@A]', 1), ('[A, A~@[%]@~B,~1][0]', 1),
+]
